@@ -16,10 +16,11 @@ CONSTANTS MaxObjs, MaxDepth, SharedAttrs
 G == JsonDeserialize(IOEnv.GRAPH_FILE)
 VARIABLES objs, grpOwner, hist
 vars == <<objs, grpOwner, hist>>
-Obj(s, c, d, k) == [sel |-> s, conn |-> c, dv |-> d, cons |-> k]
+\* dec: 0 for objects derived through the graph API, k+1 for the instance a processor decoded for its k-th vector
+Obj(s, c, d, k) == [sel |-> s, conn |-> c, dv |-> d, cons |-> k, dec |-> 0]
 Ids == DOMAIN objs
 SelFinal(o) == Active(G, o.sel) = {}
-OpenCc(o) == {k \in CcIds(G) : k \notin o.conn /\ ConnActive(G, Arch(G, o.sel), k)}
+OpenCc(o) == {k \in CcIds(G) : (\A j \in 0..1 : <<k, j>> \notin o.conn) /\ ConnActive(G, Arch(G, o.sel), k)}
 HasDv == \E n \in NodeIds(G) : Kind(G, n) = "dv"
 Alloc(o) == /\ Len(objs) < MaxObjs
             /\ objs' = Append(objs, o)
@@ -33,9 +34,10 @@ TakeSel(p, c, k) == /\ c \in Active(G, objs[p].sel) /\ k \in Opts(G, c)
                     /\ Alloc([objs[p] EXCEPT !.sel = [objs[p].sel EXCEPT ![c] = k]])
                     /\ Log("TakeSel", p, c, k)
 \* (the code offers a connection choice whose sources exist as soon as they exist, not only on selection-final objects)
-ApplyConn(p, k) == /\ k \in OpenCc(objs[p])
-                   /\ Alloc([objs[p] EXCEPT !.conn = objs[p].conn \cup {k}])
-                   /\ Log("ApplyConn", p, k, 0)
+\* j: which of the offered connection sets is applied (0 = the first, 1 = the last one offered)
+ApplyConn(p, k, j) == /\ k \in OpenCc(objs[p])
+                      /\ Alloc([objs[p] EXCEPT !.conn = objs[p].conn \cup {<<k, j>>}])
+                      /\ Log("ApplyConn", p, k, j)
 \* the user stores a design-variable value on object p itself (an in-place change of p, of nothing else)
 SetDV(p) == /\ HasDv /\ ~objs[p].dv
             /\ objs' = [objs EXCEPT ![p].dv = TRUE] /\ UNCHANGED grpOwner
@@ -46,13 +48,13 @@ ConstrainCopy(p, k) == /\ Cardinality(Active(G, objs[p].sel)) >= 2 /\ objs[p].co
                        /\ Alloc([objs[p] EXCEPT !.cons = k])
                        /\ Log("ConstrainCopy", p, 0, k)
 \* a processor built on the initial object decodes a further instance (all selection choices resolved)
-Decode(k) == /\ Alloc(Obj(NoSel(G), {}, FALSE, 0)) /\ Log("Decode", 1, 0, k)
+Decode(k) == /\ Alloc([Obj(NoSel(G), {}, FALSE, 0) EXCEPT !.dec = k + 1]) /\ Log("Decode", 1, 0, k)
 
 Next == \E p \in Ids :
           \/ Copy(p) \/ SetDV(p) \/ (\E k \in 1..3 : ConstrainCopy(p, k))
           \/ \E c \in ChIds(G) : \E k \in NodeIds(G) : TakeSel(p, c, k)
-          \/ \E k \in CcIds(G) : ApplyConn(p, k)
-          \/ (p = 1 /\ \E k \in 0..2 : Decode(k))
+          \/ \E k \in CcIds(G) : \E j \in 0..1 : ApplyConn(p, k, j)
+          \/ (p = 1 /\ \E k \in 0..3 : Decode(k))
 Spec == Init /\ [][Next]_vars
 Bound == Len(hist) <= MaxDepth
 
